@@ -242,6 +242,20 @@ func ruleC15_2(c *Ctx) {
 			}
 			c.check(okVal, R, fname(f), "constructor "+strings.TrimPrefix(cn, "ssl/signerverifier.")+" only after successful key material validation", call.Pos(), "dominated by the nil-error edge of the validator applied to the same key",
 				"key material is handed unvalidated to a securesystemslib constructor that type-asserts the parsed key unchecked (rsa key with ECDSA PEM => interface-conversion panic; short ed25519 key => panic in crypto/ed25519)")
+			// the key types that are routed to this constructor are key types the validator knows: a type name the
+			// validator lets through unexamined (its default arm) must not reach an asserting constructor
+			if vm := c.lookup("in_toto.validateKeyMaterial"); vm != nil {
+				known := stringCases(vm, func(v ssa.Value) bool { return strings.HasSuffix(org(v), ".KeyType") })
+				var foreign []string
+				for label, bo := range stringCases(f, func(v ssa.Value) bool { return strings.HasSuffix(org(v), ".KeyType") }) {
+					if c.reachedUnderCase(call.Block(), bo) && known[label] == nil {
+						foreign = append(foreign, label)
+					}
+				}
+				sort.Strings(foreign)
+				c.check(len(foreign) == 0, R, fname(f), "constructor "+strings.TrimPrefix(cn, "ssl/signerverifier.")+" is reached only for key types the validator examines", call.Pos(), "case labels are among {"+strings.Join(keysOf(known), ", ")+"}",
+					"key type(s) "+strings.Join(foreign, ", ")+" are routed to the constructor, but validateKeyMaterial has no arm for them: their material passes unexamined and the constructor's unchecked type assertion panics on material of another kind")
+			}
 		}
 	}
 	if n == 0 {
